@@ -44,6 +44,11 @@ func runLeader(ctx *check.JobCtx, name string) {
 		scnFaults(sub)
 	case "selection":
 		scnSelection(sub)
+	case "renewals":
+		if len(parts) == 2 {
+			sub.Job.Args["mode"] = parts[1]
+		}
+		scnRenewRecipes(sub)
 	default:
 		panic("unknown leader " + name)
 	}
